@@ -536,6 +536,25 @@ Definition cases := [
 	common.WriteFile(filepath.Join(outDir, "cases_c15_gate.index.txt"), strings.Join(idx, "\n")+"\n")
 	meta.CaseFiles = append(meta.CaseFiles, "cases_c15_gate.v")
 
+	// ---------- 2b. every rule recommending a standard API, on an input synthesised from its pattern ----------
+	sLines, sIdx, sObs, sEvals := synthGate(meta, funcs, methods, versions)
+	evals += sEvals
+	for part := 0; part*600 < len(sLines); part++ {
+		hi := (part + 1) * 600
+		if hi > len(sLines) {
+			hi = len(sLines)
+		}
+		fn := fmt.Sprintf("cases_c15_synth_%d", part)
+		common.WriteFile(filepath.Join(outDir, fn+".v"), hdr+
+			`Definition fires_rule (g : string) (line : Z) (v : version) : bool :=
+  existsb (fun r => String.eqb (r_group r) g && (r_line r =? line) && gate_ok r (run_version Embedded v)) rule_table.
+Definition case_ok (k : string * Z * version * bool) : bool := let '(g, l, v, o) := k in Bool.eqb (fires_rule g l v) o.
+Definition cases := [
+`+strings.Join(sLines[part*600:hi], ";\n")+"\n].\nDefinition M := Eval vm_compute in mismatches case_ok cases.\nPrint M.\n")
+		common.WriteFile(filepath.Join(outDir, fn+".index.txt"), strings.Join(sIdx[part*600:hi], "\n")+"\n")
+		meta.CaseFiles = append(meta.CaseFiles, fn+".v")
+	}
+
 	// ---------- 3. dynamic rules: a user gate must see the configured version ----------
 	dynLines, dynIdx := dynamicRules(meta, versions, outDir)
 	common.WriteFile(filepath.Join(outDir, "cases_c15_dynamic.v"), hdr+
@@ -552,6 +571,27 @@ Definition cases : list (version * bool) := [
 
 	// ---------- 5. front-end plumbing, end to end ----------
 	evals += endToEnd(meta, outDir)
+	feVersions := []string{"1.13", "1.16", "1.17", "1.19", ""}
+	feObs := sObs
+	if tier == "thorough" {
+		feVersions = versions
+	} else {
+		// quick: the inputs of version-gated rules only (the plumbing of -go is what the front-ends add)
+		gatedRule := map[string]bool{}
+		for _, e := range tab {
+			if e.gate != nil {
+				gatedRule[fmt.Sprintf("%s:%d", e.group, e.line)] = true
+			}
+		}
+		feObs = nil
+		for _, o := range sObs {
+			if gatedRule[fmt.Sprintf("%s:%d", o.group, o.line)] {
+				feObs = append(feObs, o)
+			}
+		}
+	}
+	meta.Distribution["front_end_inputs"] = len(feObs)
+	evals += frontEnds(meta, feObs, feVersions, outDir)
 
 	meta.Evaluations = evals + len(seen) + 144
 	meta.Distinct = len(fireCount) + okParses
@@ -632,17 +672,8 @@ func sweep(meta *common.Meta, tier string, rng interface{ Intn(int) int }, funcs
 	vers := []string{"1.13", "1.16"}
 	if tier == "thorough" {
 		vers = []string{"1.13", "1.14", "1.15", "1.16", "1.17", "1.18", "1.19", "1.20", "1.21", "1.22"}
-	} else {
-		// quick: a third of the groups per run, chosen by the seed
-		var pick []string
-		off := rng.Intn(3)
-		for i, n := range names {
-			if i%3 == off {
-				pick = append(pick, n)
-			}
-		}
-		names = pick
 	}
+	_ = rng // every group in both tiers: findings must not depend on the seed
 	env := common.GoEnv()
 	evals := 0
 	for _, g := range names {
